@@ -39,10 +39,13 @@ func init() {
 		Harnesses: func(tier string) []HarnessSpec {
 			return []HarnessSpec{{Pkg: "internal/validator", Fn: "VerifC04Entry", Native: "VerifC04EntryNative", Reach: []string{"decode-failed", "flatten-failed", "ok-path"},
 				Bounds: map[string]any{"entry_points": 4, "fault_flags": "decode, flatten (typed error | plain error | panic | empty graph), compile, eval error, empty result; the failing text submitted twice"}},
+				// which texts are unreadable is decided by the real decoding code, run natively on a family of concrete texts
+				{Pkg: "internal/validator", Fn: "VerifC04Texts", Native: "VerifC04TextsNative", Reach: []string{"returned"},
+					Bounds: map[string]any{"texts": "41 concrete texts from which no complete JSON value can be read: empty, blank, truncated values, YAML/RAML documents and flow collections, comments before the value, UTF-8/UTF-16 byte order marks, XML, Turtle, bare words", "entry_points": 4, "decoders_run_natively": "encoding/json Decoder and Unmarshal, OPA util.Unmarshal / UnmarshalJSON (any other decoder of the data text ends the path as unsupported: inconclusive)"}},
 				// the command line is an entry point too: a failed validation must not end with status 0
 				{Pkg: "cmd/commands", Fn: "VerifC18Validate", Native: "VerifC18ValidateNative", Reach: []string{"lib-failed"}, Bounds: map[string]any{"library_failure": "any error value | io.ErrUnexpectedEOF (truncated data) | io.EOF (empty data)"}}}
 		},
-		Assumptions: append([]string{"which byte strings make encoding/json or json-gold fail is their business: the fault is a symbolic flag; native replay uses the witnesses `#%RAML…` (not JSON) and {\"@context\": 42} (rejected by JSON-LD)"}, stubAssume...),
+		Assumptions: append([]string{"which byte strings make encoding/json or json-gold fail is their business: in VerifC04Entry the fault is a symbolic flag and native replay uses the witnesses `#%RAML…` (not JSON) and {\"@context\": 42} (rejected by JSON-LD); VerifC04Texts pins the other side of that contract for a family of concrete texts (the decoder the code really calls runs natively on each)"}, stubAssume...),
 		TrustedBase: []string{stdTrusted, "stubs in gosym/stubs.go"},
 	})
 	reg(&PropertySpec{
@@ -53,6 +56,7 @@ func init() {
 				{Pkg: "internal/validator", Fn: "VerifC09Equiv", Native: "VerifC09EquivNative", Reach: []string{"compile-failed", "validated-both"}, Bounds: map[string]any{"runs": 2}},
 				{Pkg: "internal/validator", Fn: "VerifC09TwoProfiles", Native: "VerifC09TwoProfilesNative", Reach: []string{"validated"}, Bounds: map[string]any{"profiles": 2, "orders": "B compiled after A | B validated from text after A was compiled | A, B, A compiled"}},
 				{Pkg: "internal/validator", Fn: "VerifC09History", CrossCheck: true, Native: "VerifC09HistoryNative", Reach: []string{"validated-3"}, Bounds: map[string]any{"history_length": 3}},
+				{Pkg: "internal/validator", Fn: "VerifC09IndexHistory", Native: "VerifC09IndexHistoryNative", Reach: []string{"indexed-3"}, Bounds: map[string]any{"history_length": 3, "units": "4 units over the same node ids: same root location with different library contents and ranges, one with another root"}},
 				{Pkg: "internal/validator", Fn: "VerifC09IndexFrame", Native: "VerifC09IndexFrameNative", Reach: []string{"indexed"}, Bounds: map[string]any{"graph_shapes": "the catalogue of C17 (type forms x lexical / source-information layouts)"}},
 			}
 		},
@@ -65,6 +69,7 @@ func init() {
 		Harnesses: func(tier string) []HarnessSpec {
 			return []HarnessSpec{
 				{Pkg: "pkg", Fn: "VerifC11Events", CrossCheck: true, Native: "VerifC11EventsNative", Reach: []string{"returned", "compile-ok", "compile-failed", "ends-in-start"}, Bounds: map[string]any{"entry_points": 5, "profiles": 5}},
+				{Pkg: "pkg", Fn: "VerifC11Reuse", Native: "VerifC11ReuseNative", Reach: []string{"two-requests"}, Bounds: map[string]any{"requests": 2, "profiles": 2, "channel_kept_in": "one variable re-made per request | one variable per request", "entry_points": 3, "stage_faults": "per request"}},
 				{Pkg: "pkg", Fn: "VerifC11NilChannel", Reach: []string{"returned"}},
 			}
 		},
@@ -78,6 +83,7 @@ func init() {
 			return []HarnessSpec{
 				{Pkg: "internal/validator", Fn: "VerifC03Report", CrossCheck: true, Reach: []string{"encoded", "with-date", "without-date"}, Bounds: map[string]any{"results_per_level": "0..2", "string_bytes": "1..2 symbolic"}},
 				{Pkg: "internal/validator", Fn: "VerifC03EmptyResultSet", Reach: []string{"returned"}},
+				{Pkg: "internal/validator", Fn: "VerifC03ForeignMembers", Reach: []string{"refused"}, Bounds: map[string]any{"foreign_member": "string | number | boolean | array", "layouts": "alone, before or after a genuine result, in any level; optionally a genuine result in another level"}},
 			}
 		},
 		Assumptions: []string{"validator.Encode's json.Encoder is intercepted: the oracle inspects the structure handed to it; encoding/json is trusted to serialise it faithfully", "regosym part: for every layout of 2-3 validations over {violation, warning, info, defined-but-unlisted} (plus a listed-but-undefined name) the emitted module reports each validation only under its level, the three level keys are always defined and report.profile is the name — on graphs of 2 nodes"},
@@ -130,7 +136,7 @@ func init() {
 					{Pkg: g, Fn: "VerifC13Pattern3", Reach: []string{"lexed"}, Bounds: b(3)},
 					{Pkg: g, Fn: "VerifC13ParseMessage", Reach: []string{"parsed"}},
 					{Pkg: g, Fn: "VerifC13MessageBraces4", Reach: []string{"lexed"}, Bounds: map[string]any{"text": "0..4 characters from the representative alphabet (braces included)"}},
-					{Pkg: g, Fn: "VerifC13EscapeBytes4", Reach: []string{"lexed"}, Bounds: map[string]any{"text": "every well-formed UTF-8 text of 1..4 bytes (all 256 byte values: control characters, DEL, multi-byte characters) through the escaper behind every pasted text"}},
+					{Pkg: g, Fn: "VerifC13EscapeBytes6", Reach: []string{"lexed"}, Bounds: map[string]any{"text": "every well-formed UTF-8 text of 1..6 bytes (all 256 byte values: control characters, DEL, characters of one to four bytes, next to each other) through the escaper behind every pasted text"}},
 					{Pkg: g, Fn: "VerifC13TemplateTokens", Reach: []string{"generated"}, Bounds: map[string]any{"tokens": "$message $result $node $traceNode", "positions": "pattern, in value, message, validation name"}},
 					{Pkg: g, Fn: "VerifC13MessageTwoVars", Reach: []string{"lexed"}, Bounds: map[string]any{"placeholders": "two: the same property twice or two properties", "text": "0..1 characters before, between and after"}},
 				}
@@ -143,7 +149,7 @@ func init() {
 				{Pkg: g, Fn: "VerifC13SetValues2", Reach: []string{"lexed"}, Bounds: b(2)},
 				{Pkg: g, Fn: "VerifC13Pattern2", Reach: []string{"lexed"}, Bounds: b(2)},
 				{Pkg: g, Fn: "VerifC13MessageBraces3", Reach: []string{"lexed"}, Bounds: map[string]any{"text": "0..3 characters from the representative alphabet (braces included)"}},
-				{Pkg: g, Fn: "VerifC13EscapeBytes3", Reach: []string{"lexed"}, Bounds: map[string]any{"text": "every well-formed UTF-8 text of 1..3 bytes (all 256 byte values: control characters, DEL, multi-byte characters) through the escaper behind every pasted text"}},
+				{Pkg: g, Fn: "VerifC13EscapeBytes4", Reach: []string{"lexed"}, Bounds: map[string]any{"text": "every well-formed UTF-8 text of 1..4 bytes (all 256 byte values: control characters, DEL, characters of one to four bytes) through the escaper behind every pasted text"}},
 				{Pkg: g, Fn: "VerifC13TemplateTokens", Reach: []string{"generated"}, Bounds: map[string]any{"tokens": "$message $result $node $traceNode", "positions": "pattern, in value, message, validation name"}},
 				{Pkg: g, Fn: "VerifC13MessageTwoVars", Reach: []string{"lexed"}, Bounds: map[string]any{"placeholders": "two: the same property twice or two properties", "text": "0..1 characters before, between and after"}},
 			}
@@ -310,6 +316,7 @@ func init() {
 		Rule: "gosym: one state = one flattened graph with a nondeterministic lexical layout through the real Index; regosym: one program evaluated on a symbolic graph whose @lexical entries (range text from a boundary pool, uri) are solver-chosen per node",
 		Harnesses: func(tier string) []HarnessSpec {
 			return []HarnessSpec{{Pkg: "internal/validator", Fn: "VerifC14Index", Reach: []string{"indexed"}, Bounds: map[string]any{"domain_nodes": 3, "lexical_entries": "0..3, element = any node or a property IRI", "source_information": "absent | present with 0..2 additional locations listing any subset of the nodes"}},
+				{Pkg: "internal/validator", Fn: "VerifC14OwnedMaps", Reach: []string{"indexed"}, Bounds: map[string]any{"nodes": "a declaration node whose id is used as a property IRI on another node; each with its own source map (sources as object or array; the declaration with its own entry, an empty map or no map)", "order": "either map first"}},
 				{Pkg: "internal/validator", Fn: "VerifC14RangeLayout", Reach: []string{"indexed"}, Bounds: map[string]any{"range_text_layouts": "12 textual layouts of the four numbers (compact, blanks, no brackets, leading zeros, surrounding text, large magnitudes)", "container": "single object | one-element array"}}}
 		},
 		Assumptions: []string{
